@@ -29,7 +29,8 @@
 (*           path AppendMessageSet is the one-step action DoAppSet)        *)
 (*   rol     the cleaner loop's checkAndPerformSplit   [pc, new]           *)
 (*   tog     SetReadonly caller      [pc]                                  *)
-(*   rd      committed readers, local state of committedReader:            *)
+(*   rd      committed readers, local state of committedReader (pc = new: *)
+(*           inside NewReader, h = the HW snapshot it loaded):             *)
 (*           [pc, seg, pos, hwSeg, hwPos, rhw, h, park, start, err]        *)
 (*   del     history: offsets delivered to each reader, in order           *)
 (*                                                                         *)
@@ -40,6 +41,9 @@
 (* woken reader is one step (the receive touches no shared state).         *)
 (***************************************************************************)
 EXTENDS Integers, Sequences, FiniteSets
+
+\* NewLoads: how many times newReaderCommitted loads the HW (1 = the code; 2 = defective variant, see RNew)
+CONSTANT NewLoads
 
 VARIABLES cfg, segs, active, listed, hw, ro, wait, app, rol, tog, rd, del
 vars == <<cfg, segs, active, listed, hw, ro, wait, app, rol, tog, rd, del>>
@@ -212,22 +216,43 @@ TogNotify ==
 
 Dead(r, e) == [rd[r] EXCEPT !.pc = "dead", !.err = e]
 
-\* NewReader(s, committed): hw, segment list, emptiness (executed by the caller
-\* without interruption)
+\* NewReader(s, committed) -> newReaderCommitted(s) is not one critical section:
+\*   DoNewReader(r, s)  `hw = l.HighWatermark()` - THE snapshot of the HW (read lock)      pc none -> new
+\*   RNew(r)            `segments = l.Segments()`, `l.OldestOffset()`, the decision "offset exceeds the HW: wait
+\*                      for the next message" vs "positioned", getHWPos / findSegmentContains / findEntry on the
+\*                      snapshot, the struct is built.  One step: everything it reads about offsets <= the loaded
+\*                      HW (segment of the HW, entry of s) no longer changes once the HW was loaded; the log is
+\*                      empty only while the HW is -1 (every s >= 0 waits then).
+\* SetHighWatermark, appends, rolls and toggles interleave between the two.  NewLoads = 1 is the code as written
+\* (decision and reader use the one snapshot).  NewLoads = 2 is the defective variant "the HW is loaded again after
+\* the decision" (a check-then-act on two loads): the waiting reader is told the *later* HW was already consumed.
+Built(s, hd, hu) ==          \* hd: the HW the decision uses, hu: the HW the reader is built with
+  LET empty == segs[listed[1]].n = 0
+      hs    == FindSeg(segs, listed, hu)
+      sg    == FindSeg(segs, listed, s)
+  IN IF s > hd \/ empty THEN
+       [NoReader EXCEPT !.pc = "start", !.rhw = hu, !.park = TRUE, !.start = s]
+     ELSE IF hs = 0 \/ sg = 0 THEN
+       [NoReader EXCEPT !.pc = "dead", !.err = "notfound", !.start = s]
+     ELSE
+       [NoReader EXCEPT !.pc = "start", !.seg = sg, !.pos = EntryPos(segs, sg, s),
+                        !.hwSeg = hs, !.hwPos = hu - segs[hs].base + 1,
+                        !.rhw = hu, !.start = s]
+
 DoNewReader(r, s) ==
   /\ rd[r].pc = "none"
-  /\ LET empty == segs[listed[1]].n = 0
-         hs    == FindSeg(segs, listed, hw)
-         sg    == FindSeg(segs, listed, s)
-     IN rd' = [rd EXCEPT ![r] =
-          IF s > hw \/ empty THEN
-            [NoReader EXCEPT !.pc = "start", !.rhw = hw, !.park = TRUE, !.start = s]
-          ELSE IF hs = 0 \/ sg = 0 THEN
-            [NoReader EXCEPT !.pc = "dead", !.err = "notfound", !.start = s]
-          ELSE
-            [NoReader EXCEPT !.pc = "start", !.seg = sg, !.pos = EntryPos(segs, sg, s),
-                             !.hwSeg = hs, !.hwPos = hw - segs[hs].base + 1,
-                             !.rhw = hw, !.start = s]]
+  /\ rd' = [rd EXCEPT ![r] = [NoReader EXCEPT !.pc = "new", !.h = hw, !.start = s]]
+  /\ UNCHANGED <<cfg, segs, active, listed, hw, ro, wait, app, rol, tog, del>>
+
+RNew(r) ==
+  /\ rd[r].pc = "new"
+  /\ rd' = [rd EXCEPT ![r] = Built(rd[r].start, rd[r].h, IF NewLoads = 2 THEN hw ELSE rd[r].h)]
+  /\ UNCHANGED <<cfg, segs, active, listed, hw, ro, wait, app, rol, tog, del>>
+
+\* the whole call without anybody in between (what a lock-step driver executes: both steps back to back)
+DoNewReaderAtomic(r, s) ==
+  /\ rd[r].pc = "none"
+  /\ rd' = [rd EXCEPT ![r] = Built(s, hw, hw)]
   /\ UNCHANGED <<cfg, segs, active, listed, hw, ro, wait, app, rol, tog, del>>
 
 \* outcome of the read loop applied to reader r (already carrying seg/hwSeg...)
@@ -286,7 +311,7 @@ RSync(r) ==
              IN AfterLoop(r, cur, Loop(segs, listed, cur.seg, cur.pos, cur.hwSeg, cur.hwPos))
   /\ UNCHANGED <<cfg, segs, active, listed, hw, ro, wait, app, rol, tog>>
 
-RNext(r) == RStart(r) \/ RLoad(r) \/ RWait(r) \/ RSync(r)
+RNext(r) == RNew(r) \/ RStart(r) \/ RLoad(r) \/ RWait(r) \/ RSync(r)
 
 -----------------------------------------------------------------------------
 (* What property C03 demands (evaluated on model steps and on recorded      *)
